@@ -139,7 +139,7 @@ fn dj(d: &[(Universal2DBox, Option<f32>)]) -> serde_json::Value {
 
 pub fn run(tier: Tier) -> Report {
     let rep = Report::new("C14", tier);
-    rep.set_rule("every list of n <= 4 (quick) / 5 (thorough) boxes drawn with repetition from an 11-box menu (cluster of shifted boxes, nested, exact duplicate, rotated, disjoint, two corner overlaps, two invalid) x score patterns (all None; every distinct permutation of a prefix of {.9,.5,.5,.1,.7}) x nms threshold {.05,.2,.3,.5,.7} x score threshold {None, below, inside, above the scores, above every box height}; plus every list of 2-3 boxes from 6 small boxes at map coordinates (1e7; 448250 / 5411900), one f32 grid step apart; plus every list of 2-3 boxes from 7 elongated boxes that all carry the same non-zero angle (3 angles; offsets along and across the long side); plus every list of 2-3 boxes from a 5-box rotated cluster in which at least one box had its polygon generated (gen_vertices) before it was moved / turned in place; plus chain / ladder / grid families of k boxes for every k <= 40; plus an exact family: every list of 2 (thorough: 3) boxes from 60 axis-aligned boxes with dyadic corners and sizes x thresholds {1/8,1/4,1/2,3/4}, decided with zero margin (coverage exactly at the threshold must not suppress). Non-trivial = at least two valid boxes.");
+    rep.set_rule("every list of n <= 4 (quick) / 5 (thorough) boxes drawn with repetition from an 11-box menu (cluster of shifted boxes, nested, exact duplicate, rotated, disjoint, two corner overlaps, two invalid) x score patterns (all None; every distinct permutation of a prefix of {.9,.5,.5,.1,.7}) x nms threshold {.05,.2,.3,.5,.7} x score threshold {None, below, inside, above the scores, above every box height}; plus every list of 2-3 boxes from 6 small boxes at map coordinates (1e7; 448250 / 5411900), one f32 grid step apart; plus every list of 2-3 boxes from 7 elongated boxes that all carry the same non-zero angle (3 angles; offsets along and across the long side); plus every list of 2-3 boxes from a 5-box rotated cluster in which at least one box had its polygon generated (gen_vertices) before it was moved / turned in place; plus chain / ladder / grid families of k boxes for every k <= 40; plus valid frames judged right after a call that failed on the same thread (a box with its public confidence field outside [0,1] overlapping the top box, every placement in lists of 3..6); plus an exact family: every list of 2 (thorough: 3) boxes from 60 axis-aligned boxes with dyadic corners and sizes x thresholds {1/8,1/4,1/2,3/4}, decided with zero margin (coverage exactly at the threshold must not suppress). Non-trivial = at least two valid boxes.");
     rep.assume("own coverage computation (engine/src/geom.rs); keep/drop decisions asserted outside a 1e-4 margin around the threshold");
     let m = menu();
     let nmax = tier.pick(4usize, 5usize);
@@ -372,6 +372,56 @@ pub fn run(tier: Tier) -> Report {
             }
         }
         rep.extra("equally_oriented_lists", json!(lists));
+    }
+    // valid frames after a frame on which nms() failed: a box whose public `confidence` field was set outside [0, 1]
+    // makes the intersection computation panic half-way through the suppression loop; a caller that recovers
+    // (catch_unwind, the Python layer's exception) goes on with valid frames on the same thread - what those return
+    // is a function of their input alone
+    {
+        let prev_hook = std::panic::take_hook();
+        std::panic::set_hook(Box::new(|_| {}));
+        let mut failed_calls = 0u64;
+        let mut follow_ups = 0u64;
+        for n_poison in 3..=6usize {
+            for dup_at in 0..n_poison {
+                for bad_at in 0..n_poison {
+                    for top_at in 0..n_poison {
+                        if dup_at == bad_at || dup_at == top_at || bad_at == top_at {
+                            continue;
+                        }
+                        // top box, its near-duplicate (suppressed first), a box with an invalid confidence that
+                        // overlaps the top box, everything else far away
+                        let mut poison: Vec<(Universal2DBox, Option<f32>)> = (0..n_poison).map(|i| (Universal2DBox::ltwh(500.0 + 60.0 * i as f32, 300.0, 10.0, 20.0), Some(0.3 + 0.01 * i as f32))).collect();
+                        poison[top_at] = (Universal2DBox::ltwh(0.0, 0.0, 10.0, 20.0), Some(0.95));
+                        poison[dup_at] = (Universal2DBox::ltwh(0.5, 0.0, 10.0, 20.0), Some(0.9));
+                        let mut bad = Universal2DBox::ltwh(6.0, 0.0, 10.0, 20.0);
+                        bad.confidence = 1.5;
+                        poison[bad_at] = (bad, Some(0.85));
+                        let r = std::panic::catch_unwind(std::panic::AssertUnwindSafe(|| nms(&poison, 0.5, None).len()));
+                        if r.is_err() {
+                            failed_calls += 1;
+                        }
+                        // valid follow-up frames on the same thread: disjoint boxes (all kept), and a frame with one
+                        // real suppression
+                        for n in [2usize, 4, 7] {
+                            let disjoint: Vec<(Universal2DBox, Option<f32>)> = (0..n).map(|i| (Universal2DBox::ltwh(40.0 * i as f32, 10.0, 10.0, 20.0), Some(0.99 - 0.1 * i as f32))).collect();
+                            let mut one_pair = disjoint.clone();
+                            one_pair.push((Universal2DBox::ltwh(1.0, 10.0, 10.0, 20.0), Some(0.2)));
+                            for dets in [disjoint, one_pair] {
+                                follow_ups += 1;
+                                evals.fetch_add(1, Ordering::Relaxed);
+                                nontrivial.fetch_add(1, Ordering::Relaxed);
+                                if let Err((key, what)) = judge(&dets, 0.5, None) {
+                                    rep.violation(Violation { key: format!("{key}/after-a-failed-call"), what: format!("after a call that {} on this thread: {what}", if r.is_err() { "panicked" } else { "returned" }), replay: json!({"family":"valid frames after a failed call","failed_call":dj(&poison),"invalid_confidence_at":bad_at,"detections":dj(&dets),"nms_threshold":0.5,"score_threshold":null}) });
+                                }
+                            }
+                        }
+                    }
+                }
+            }
+        }
+        std::panic::set_hook(prev_hook);
+        rep.extra("valid_frames_after_a_failed_call", json!({"calls_that_failed":failed_calls,"follow_up_frames":follow_ups}));
     }
     // families for every k <= 40
     for k in 1..=40usize {
